@@ -188,17 +188,18 @@ def check_shape(P, dims, ndig, dbg_note=''):
             elems.append(mk_dec(ds, 'u8'))
             refs.append([mk_int(d + 48, 'u8') for d in reversed(ds)])
         sub = {'T': 'u8', 'D': str(D)}
-        tensor = [Arr(D, None, {i: I(v, 'usize') for i, v in enumerate(dims)}), Vec(list(elems))]
+        # the tensor comes from the real constructor (no assumption about the private layout)
+        tensor = m.run(P.tone('from_vec'), [Arr(D, None, {i: I(v, 'usize') for i, v in enumerate(dims)}), Vec(list(elems))], sub)
         env = WriteEnv()
         m.env = env
-        w = [Arr(P.buf_size('writer'), I(46, 'u8')), I(0, 'usize'), Opaque('stdout')]
+        w, _ = P.fresh_writer(m)
         wslot = [w]
         m.run(P.tone('write'), [Ref([tensor], 0), Ref(wslot, 0)], sub)
         m.run(P.writer_fns['flush'], [Ref(wslot, 0)], {})
         sink = list(env.sink)
         # read back
         m.env = ReadEnv(sink, 0, fixed_schedule=[])
-        r = [Arr(P.buf_size('reader'), I(0, 'u8')), I(0, 'usize'), I(0, 'usize'), Opaque('stdin'), False]
+        r = P.fresh_reader(m)
         back = m.run(P.tone('read'), [Arr(D, None, {i: I(v, 'usize') for i, v in enumerate(dims)}), Ref([r], 0)], sub)
         eq = m.run(P.tone('eq'), [Ref([tensor], 0), Ref([back], 0)], sub)
         return dict(sink=sink, refs=refs, elems=elems, back=back, eq=eq)
